@@ -461,7 +461,8 @@ TIE_FILES = {   # tie file -> functions of pyerrors/obs.py it needs regenerated
     "Tie_expand_deltas.v": ["_expand_deltas"],
     "Tie_merge.v": ["_expand_deltas_for_merge", "_merge_idx"],
     "Tie_inter.v": ["_intersection_idx"],
-    "Tie_reduce.v": ["_reduce_deltas", "reweight_samples"],
+    "Tie_reduce.v": ["_reduce_deltas"],
+    "Tie_reweight.v": ["_reduce_deltas", "reweight_samples"],      # imports Tie_reduce: list that file first
     "Tie_gap.v": ["_determine_gap", "gamma_method_w_max"],
     "Tie_kwarg.v": ["_parse_kwarg"],
     "Tie_scalef.v": ["_compute_scalefactor_missing_rep"],
@@ -473,7 +474,9 @@ TIE_FILES = {   # tie file -> functions of pyerrors/obs.py it needs regenerated
     "Tie_sortcorr.v": ["sort_corr_mapping"],
     "Tie_window.v": ["gamma_method_window_search", "gamma_method_tauexp_search", "gamma_method_window_tauint", "gamma_method_window_dvalue_sq"],
     "Tie_tauint.v": ["gamma_method_normalise", "gamma_method_rho", "gamma_method_n_tauint", "gamma_method_dtauint_radicand", "gamma_method_dtauint_factor"],
-    "Tie_corr.v": ["corr_thin", "corr_reverse", "corr_roll", "corr_symmetric", "corr_anti_symmetric", "corr_add_corr", "corr_mul_corr", "corr_add_scalar", "corr_mul_scalar", "corr_fit_xs", "corr_fit_ys"],
+    "Tie_corr.v": ["corr_thin", "corr_reverse", "corr_roll", "corr_symmetric", "corr_anti_symmetric", "corr_add_corr", "corr_mul_corr", "corr_add_scalar", "corr_mul_scalar"],
+    "Tie_corrfit.v": ["corr_fit_xs", "corr_fit_ys"],
+    "Tie_plateau.v": ["corr_plateau_avg"],
     "Tie_gamma.v": ["_expand_deltas", "_calc_gamma"],      # imports Tie_expand_deltas: list that file first
 }
 
